@@ -657,7 +657,10 @@ class BaseConnector:
     ) -> Connection:
         """Get from pool or create new connection."""
         key = req.connection_key
-        if (conn := await self._get(key, traces)) is not None:
+        # An idle pooled connection becomes a connection in use as well:
+        # it may only be taken while the limits leave room for it.
+        available = self._available_connections(key)
+        if available > 0 and (conn := await self._get(key, traces)) is not None:
             # If we do not have to wait and we can get a connection from the pool
             # we can avoid the timeout ceil logic and directly return the connection
             if req.proxy:
@@ -665,7 +668,7 @@ class BaseConnector:
             return conn
 
         async with ceil_timeout(timeout.connect, timeout.ceil_threshold):
-            if self._available_connections(key) <= 0:
+            if available <= 0:
                 await self._wait_for_available_connection(key, traces)
                 if (conn := await self._get(key, traces)) is not None:
                     if req.proxy:
